@@ -95,6 +95,12 @@ instance instFlNV : Fl (NV K) where
 @[simp] theorem fl_sqrt_none : Fl.sqrt (none : NV K) = none := rfl
 @[simp] theorem fl_atan_none : Fl.atan (none : NV K) = none := rfl
 @[simp] theorem fl_exp_none : Fl.exp (none : NV K) = none := rfl
+@[simp] theorem fl_atan2_none_l (b : NV K) : Fl.atan2 (none : NV K) b = none := by cases b <;> rfl
+@[simp] theorem fl_atan2_none_r (a : NV K) : Fl.atan2 a (none : NV K) = none := by cases a <;> rfl
+@[simp] theorem fl_sin_none : Fl.sin (none : NV K) = none := rfl
+@[simp] theorem fl_cos_none : Fl.cos (none : NV K) = none := rfl
+@[simp] theorem fl_asin_none : Fl.asin (none : NV K) = none := rfl
+@[simp] theorem fl_abs_none : Fl.abs (none : NV K) = none := rfl
 @[simp] theorem fl_lt_none_l (b : NV K) : Fl.lt (none : NV K) b = false := by cases b <;> rfl
 @[simp] theorem fl_lt_none_r (a : NV K) : Fl.lt a (none : NV K) = false := by cases a <;> rfl
 @[simp] theorem fl_le_none_l (b : NV K) : Fl.le (none : NV K) b = false := by cases b <;> rfl
